@@ -36,7 +36,7 @@ func genStall(t *rapid.T, forC11 bool) stallCase {
 		c.StallMs = rapid.SampledFrom([]int{200, 3400, 3400}).Draw(t, "stall")
 		c.Joiners = rapid.IntRange(1, 2).Draw(t, "joiners")
 	} else {
-		c.StallMs = rapid.SampledFrom([]int{20, 60, 300}).Draw(t, "stall")
+		c.StallMs = rapid.SampledFrom([]int{20, 60, 60, 300, 300, 2000}).Draw(t, "stall") // 2000: answers arrive long after the callers' 500 ms timeouts
 		c.Joiners = rapid.IntRange(0, 1).Draw(t, "joiners")
 	}
 	return c
